@@ -154,6 +154,78 @@ def Outcome.path : Outcome → Path
   | .found p => p
   | _ => []
 
+/-! ## the same functions, loop by loop as they are written in chain.go
+
+`searchPath`, `candidates` and `findLoop` above are the forms the proofs work with. The definitions
+below follow the statements of the Go functions (ranges with `return`/`continue`, the `pathKeys`,
+`fromMatches`, `toMatches` slices, the `newPaths` map filled inside the nested ranges); they are
+proved equal to the forms above (`Proofs/Conversion`: `searchPathLoop_eq`, `passLoop_eq`,
+`findCode_eq`), and they are what the driver runs. -/
+
+/-- first range of `SearchPathForRule`: `inl` = returned from inside the range (exact key),
+`inr` = `pathKeys` -/
+def searchScan (rule : Rule) : List Entry → List Entry → Path ⊕ List Entry
+  | [], pathKeys => .inr pathKeys
+  | e :: es, pathKeys =>
+    if e.1.dst == rule.dst && e.1.src == rule.src then .inl e.2
+    else if keyMatches rule e then searchScan rule es (pathKeys ++ [e])
+    else searchScan rule es pathKeys
+
+/-- second range of `SearchPathForRule` (`cc` counts the two tests): `inl` = returned at `cc == 2`,
+`inr` = (`fromMatches`, `toMatches`) -/
+def pickScan (rule : Rule) : List Entry → List Entry → List Entry → Path ⊕ (List Entry × List Entry)
+  | [], fromM, toM => .inr (fromM, toM)
+  | k :: ks, fromM, toM =>
+    let isFrom := (afterSlash rule.src).isSome && k.1.src == rule.src
+    let isTo := (afterSlash rule.dst).isSome && k.1.dst == rule.dst
+    if isFrom && isTo then .inl k.2
+    else pickScan rule ks (if isFrom then fromM ++ [k] else fromM) (if isTo then toM ++ [k] else toM)
+
+def searchPathLoop (entries : List Entry) (rule : Rule) : Path :=
+  match searchScan rule entries [] with
+  | .inl p => p
+  | .inr pathKeys =>
+    match pathKeys with
+    | [] => []                                   -- `len(pathKeys) == 0`
+    | [k] => k.2                                 -- `len(pathKeys) == 1`
+    | k0 :: _ =>
+      match pickScan rule pathKeys [] [] with
+      | .inl p => p
+      | .inr (fromM, toM) =>
+        match toM with
+        | k :: _ => k.2                          -- `len(toMatches) > 0`
+        | [] =>
+          match fromM with
+          | k :: _ => k.2                        -- `len(fromMatches) > 0`
+          | [] => k0.2
+
+/-- the two nested ranges of the `for {}` body, filling `newPaths` -/
+def passLoop (ord : Order) (n : Nat) (c : Chain) (rule : Rule) : List Entry :=
+  ((ord.perm (4 * n + 1) c.cache).filter (fun e => versionsMatched e.1.src rule.src)).foldl
+    (fun newPaths e =>
+      if trimGroup e.1.dst = trimGroup rule.src then newPaths            -- "Ignore loops."
+      else (nextRules (ord.perm (4 * n + 2) c.base) e.1.dst).foldl
+        (fun newPaths nx =>
+          if trimGroup nx.dst = trimGroup rule.src then newPaths         -- "Ignore loops."
+          else
+            let newPath := e.2 ++ [nx]                                   -- copy, then append
+            if searchPathLoop (ord.perm (4 * n + 3) c.cache) ⟨rule.src, nx.dst⟩ ≠ [] then newPaths
+            else cacheSet newPaths ⟨rule.src, nx.dst⟩ newPath) newPaths) []
+
+def findLoopCode (ord : Order) (rule : Rule) : Nat → Chain → Chain × Outcome
+  | 0, c => (c, .outOfFuel)
+  | n + 1, c =>
+    let p := searchPathLoop (ord.perm (4 * n) c.cache) rule
+    if p ≠ [] then (c, .found p)
+    else
+      let newPaths := passLoop ord n c rule
+      if newPaths = [] then (c, .notFound)
+      else findLoopCode ord rule n { c with cache := mergeAll c.cache newPaths }
+
+def findCode (ord : Order) (c : Chain) (rule : Rule) : Chain × Outcome :=
+  if !hasTarget c.base rule.dst then (c, .notFound)
+  else findLoopCode ord rule (c.base.length + 1) c
+
 /-! ## the specification: what a valid chain is -/
 
 /-- every step starts at (a spelling of) the version where the previous one ended; `x` = where we are -/
